@@ -24,6 +24,8 @@ def impl_canon(r):
         return ('panic', r['panic'])
     if 'abort' in r:
         return ('abort', r['abort'])
+    if 'hang' in r:
+        return ('hang', r['hang'])
     if 'none' in r:
         return ('none', None)
     if 'parse_errors' in r:
